@@ -74,6 +74,10 @@ def check_case(case):
         env, p0 = build(case["prog"])
     except rejection_types():
         raise Skip("frontend-reject")
+    from ..common import watch_z3
+
+    z3u = watch_z3()
+    z3u0 = z3u[0]
     recs = [Rec(p0, "source")]
     for c in case["prog"]["callees"]:
         recs.append(Rec(env[c["name"]], "callee"))
@@ -142,7 +146,9 @@ def check_case(case):
         sctx2 = sched.SchedCtx(env)
         q2, outcome2, d2 = sched.apply_step(recs[tgt_i].p, stp, sctx2)
         # (ops whose arguments contain a fresh-name counter are not comparable between the runs)
-        if stp[0] not in ("extract_subproc", "std.auto_stage_mem", "rename", "call_eqv"):
+        # (and a call during which z3 answered 'unknown' may legitimately come out differently the
+        #  second time: known finding C18-z3-unknown)
+        if stp[0] not in ("extract_subproc", "std.auto_stage_mem", "rename", "call_eqv") and z3u[0] == z3u0:
             if outcome2 != "accepted" or safe_str(q2) != printed:
                 raise Violation(
                     {"kind": "replay-differs", "op": stp[0]},
